@@ -416,6 +416,11 @@ def percentiles_summary(df, num_old, num_new, upsample, state):
     length = len(df)
     if length == 0:
         return ()
+    if df.isna().all():
+        # A partition that holds only missing values says nothing about the
+        # distribution; its quantiles would be nulls (``pd.NA`` for masked dtypes),
+        # which can not be ordered when the summaries are merged.
+        return ()
     random_state = np.random.RandomState(state)
     qs = sample_percentiles(num_old, num_new, length, upsample, random_state)
     data = df
